@@ -23,6 +23,7 @@ KINDS = {
     'C20': ['SD', 'SM', 'SS', 'SI', 'SX'],
     'C15': [],
     'C03': ['MF'],
+    'C01': ['MD', 'MF', 'MR'],
     'C16': ['MD', 'MF', 'MR', 'MN', 'ED', 'EV', 'EN', 'ER', 'SD', 'SM', 'SN', 'MI', 'MU'],
 }
 
@@ -539,7 +540,7 @@ def oracle_C14(r):
     return out
 
 
-ORACLES = {'C03': oracle_C13, 'C16': (lambda r: oracle_C12(r) + oracle_C13(r)), 'C12': oracle_C12, 'C13': oracle_C13, 'C14': oracle_C14, 'C15': oracle_C15, 'C20': oracle_C20}
+ORACLES = {'C03': oracle_C13, 'C01': oracle_C13, 'C16': (lambda r: oracle_C12(r) + oracle_C13(r)), 'C12': oracle_C12, 'C13': oracle_C13, 'C14': oracle_C14, 'C15': oracle_C15, 'C20': oracle_C20}
 
 
 # ------------------------------------------------------------------ known findings (committed file; never written here)
